@@ -149,6 +149,8 @@ pub struct Eval<'a> {
     pub local: Option<&'a BTreeMap<String, Vec<u8>>>,
     pub now: i64,
     pub opts: &'a EngineOpts,
+    /// Index of the run (decides which TALs are installed).
+    pub run: usize,
 }
 
 fn ext(name: &str) -> &str {
@@ -469,7 +471,7 @@ impl<'a> Eval<'a> {
         // Justified: against the store as it was before the run.
         let before = store.clone();
         let mut justified = BTreeSet::new();
-        for tal in &self.world.tals {
+        for tal in self.world.tals_in(self.run) {
             let mut scratch = before.clone();
             for content in self.ta_candidates(tal, &mut scratch, false) {
                 if let Some(cx) = self.root_cx(&content) {
@@ -478,7 +480,7 @@ impl<'a> Eval<'a> {
             }
         }
         // Exact.
-        for tal in &self.world.tals {
+        for tal in self.world.tals_in(self.run) {
             let cands = self.ta_candidates(tal, store, true);
             if let Some(cx) = cands.first().and_then(|c| self.root_cx(c)) {
                 self.walk_exact(cx, store, &mut out)
@@ -551,13 +553,13 @@ pub fn scenario_truth(
     let index = Index::new(builder, scn);
     let mut store = TruthStore::default();
     let mut res = Vec::new();
-    for (run, local) in scn.runs.iter().zip(locals) {
+    for (idx, (run, local)) in scn.runs.iter().zip(locals).enumerate() {
         let mut opts = scn.opts.clone();
         if let Some(update) = run.update { opts.update = update }
         let eval = Eval {
             world: &scn.world, index: &index,
             local: if opts.update && !opts.disable_rsync { Some(*local) } else { None },
-            now: run.now, opts: &opts,
+            now: run.now, opts: &opts, run: idx,
         };
         res.push(eval.run(&mut store));
     }
